@@ -15,7 +15,7 @@ FAMILIES_QUICK = [("prim", 1), ("object", 1), ("tuple", 1), ("union", 1), ("tpl"
 FAMILIES_THOROUGH = [("prim", 2), ("object", 2), ("tuple", 2), ("union", 2), ("tpl", 2), ("nonjson", 2), ("format", 2), ("disc", 2), ("util", 2)]
 
 
-def generate(families, tag):
+def generate(families, tag, deep=None):
     """Run TypeGen (or TypeGenU for the "util" family) per family; return (cases, tlc stats)."""
     cases = []
     stats = {"states": 0, "distinct": 0, "families": {}}
@@ -40,6 +40,38 @@ def generate(families, tag):
         stats["families"][fam] = {"depth": depth, "programs": len(cs), "tlc_s": round(r["wall"], 1)}
         cases.extend(cs)
         log(f"[gen] {fam} depth {depth}: {len(cs)} programs in {r['wall']:.1f}s")
+    # beyond the exhaustive depth: seeded random walks of the same state machine (TLC -simulate), deeper programs
+    thorough = max(dp for _, dp in families) >= 2
+    num, ddepth = deep if deep else ((200, 4) if thorough else (10, 3))   # TLC judges every successor of every state on a walk
+    seen = {json.dumps([c["ty"], c["env"]], sort_keys=True) for c in cases}
+    nd = 0
+    for fam, depth in families:
+        cfg = os.path.join(d, f"MC_GenDeep_{fam}.cfg")
+        if fam == "util":
+            vlib.write_cfg(cfg, spec="USpec", constants={"MaxDepth": ddepth}, invariants=["EmitInv"])
+            mod = "spec/mc/MC_GenU.tla"
+        else:
+            vlib.write_cfg(cfg, spec="Spec", constants={"Family": json.dumps(fam), "MaxDepth": ddepth}, invariants=["OracleLaws", "EmitInv"])
+            mod = "spec/mc/MC_Gen.tla"
+        r = vlib.run_tlc(cfg, os.path.join(vlib.VERIF, mod), workers=1, heap="4g", tag=f"gendeep-{fam}", timeout=3000,
+                         extra=["-simulate", f"num={num}", "-depth", str(ddepth + 1), "-seed", str(vlib.seed())])
+        if r["violated"]:
+            raise ToolError(f"generator TLC simulation failed for family {fam}:\n{r['tail']}")
+        k = 0
+        for c in vlib.tagged_lines(r["lines"], "CASE"):
+            if c["depth"] <= depth:
+                continue
+            key = json.dumps([c["ty"], c["env"]], sort_keys=True)
+            if key in seen:
+                continue
+            seen.add(key)
+            cases.append(c)
+            k += 1
+        nd += k
+        stats["states"] += r["states"]
+        stats["families"][fam]["sampled_deeper_programs"] = k
+    stats["distinct"] += nd
+    log(f"[gen] + {nd} sampled programs of depth <= {ddepth}")
     return cases, stats
 
 
@@ -182,7 +214,7 @@ def run(prop, tier):
         "programs_declined_with_diagnostics": sum(1 for r in recs if r["outcome"] == "diags"),
         "known_findings_hit": sorted({k for k, _ in known_hits}), "known_finding_observations": len(known_hits),
         "binding_selftest": neg, "exhaustive": True,
-        "rule": "TLC breadth-first over TypeGen per family up to MaxDepth (every reachable program); probes are "
+        "rule": "TLC breadth-first over TypeGen per family up to MaxDepth (every reachable program) + seeded random walks to greater depth; probes are "
                 "type-directed (Probe.tla) plus a fixed atom pool; a case is one (program, value, mode) triple",
     }
     vlib.write_evidence(prop, tier, cov, time.time() - t0, len(violations),
